@@ -16,6 +16,7 @@ From SWH.lib Require Import Bytes Dec GitHeader Hex Sha1.
 From SWH Require Import Generated.
 From SWH.model Require Import Hashutil.
 From SWH.proofs Require Import HashutilProofs.
+From SWH.proofs Require HashutilExamples.
 Import ListNotations.
 Open Scope N_scope.
 
